@@ -87,7 +87,11 @@ def cases(draw, tier):
         operands.append(draw(operand(values, draw(st.sampled_from(
             ["none", "none", "obs", "samp", "both"])), operands[0])))
     return {"operands": operands, "form": form, "sample": sample,
-            "observation": obs, "mdf": mdf}
+            "observation": obs, "mdf": mdf,
+            # the receiver merged with itself (the same object): every cell
+            # doubles
+            "self_merge": form == "pair" and
+            draw(st.sampled_from([False] * 11 + [True]))}
 
 
 def strategy(tier):
@@ -129,6 +133,9 @@ def model_md_f(name):
 def check(case, rec):
     from biom.exception import TableException
     tabs = [gen.build(s, rec=rec) for s in case["operands"]]
+    if case.get("self_merge"):
+        tabs = [tabs[0], tabs[0]]
+        rec.cls("merged-with-itself")
     snaps = [observe.snapshot(t) for t in tabs]
     refs = [Ref.from_snapshot(s) for s in snaps]
     smode, omode, mdf = case["sample"], case["observation"], case["mdf"]
